@@ -459,16 +459,25 @@ class LongPositionVector:
         Parameters
         ----------
         tpv_data : dict
-            Dict containing the data from a GPSD TPV message.
+            Dict containing the data from a GPSD TPV message.  gpsd leaves out the attributes it
+            has no value for: a report without position fix (mode 0/1) carries no "lat"/"lon" and
+            leaves the vector as it is; "speed" and "track" are optional in a report with a fix
+            (no course at standstill) and keep their last value.
         """
+        if tpv_data.get("lat") is None or tpv_data.get("lon") is None:
+            # No position fix: nothing to refresh, the last fix stays. Returning normally matters:
+            # the caller is the location service's thread, an exception would end all updates.
+            return self
+        speed = tpv_data.get("speed")
+        track = tpv_data.get("track")
         lpv = LongPositionVector(
             gn_addr=self.gn_addr,
             tst=self.tst,
             pai=self.pai,
             latitude=int(tpv_data["lat"] * 10**7),
             longitude=int(tpv_data["lon"] * 10**7),
-            s=int(tpv_data["speed"] * 100),
-            h=int(tpv_data["track"] * 10),
+            s=int(speed * 100) if speed is not None else self.s,
+            h=int(track * 10) if track is not None else self.h,
         )
         lpv = lpv.set_tst_in_normal_timestamp_seconds(
             int(parser.parse(tpv_data["time"]).timestamp())
